@@ -17,12 +17,18 @@ def translate(repo):
     return tr_trim.translate(repo)
 
 
-RULE = ("count matrices over 1..8 states built from planted strongly connected components (random cycle + chords "
+RULE = ("count matrices over 1..8 states (many-states stream: up to 200) built from planted strongly connected components (random cycle + chords "
         "at or above the threshold) joined by one-way bridges along a random component order, isolated states, "
         "sub-threshold counts anywhere (they carry weight but are no edges), state ids shuffled; plus fully random "
         "small-integer matrices, an equal-weight stream (any maximiser accepted), an empty / non-square stream; "
         "thresholds 0..3; each case runs trim_disconnected with both renumbering modes, the dense container and one "
         "of 9 sparse containers, and (threshold 1) MSM(trim=True/False).fit on trajectories realising the matrix; "
+        "a layout stream (removed ids at the end / front / a block inside / both ends / every other id / scattered, x every "
+        "container, in-place variant as the main run); a dead-end stream (threshold 1, MSM.fit: states entered but never left "
+        "whose incoming counts decide which component is the heaviest, source-only states, padding components); "
+        "a many-states stream (17..200 states, every container x every layout, several components, both renumbering modes, "
+        "MSM.fit at threshold 1; compared inside Coq up to 40 states -- the model's closure is a list-based Warshall -- and "
+        "judged by the exact Python oracle beyond); "
         "TrimMapping alone on injective (original, mapped) pair lists in arbitrary order; "
         "thorough adds every 0/1 digraph on <= 3 states with two weightings and every 0/1 digraph on 4 states; "
         "non-trivial := >= 2 components w.r.t. the threshold and at least one state removed. "
@@ -45,6 +51,8 @@ ASSUMPTIONS = ["counts are non-negative integers in a square 2-D matrix with >= 
 EXHAUSTIVE = {"thorough": True}
 SHARD = 250
 
+LAYOUTS = ["end", "front", "middle", "ends", "alt", "scatter"]
+COQ_CAP = 40     # the model's closure is a list-based Warshall (n^4 list steps): 40 states ~ 0.5 s per evaluation
 SPARSE = ["csr_matrix", "csc_matrix", "coo_matrix", "lil_matrix", "dok_matrix", "bsr_matrix", "dia_matrix",
           "csr_array", "coo_array"]
 
@@ -110,6 +118,138 @@ def _tie(rng, thr):
     return C
 
 
+def _many(rng, n, thr, layout, tie=False):
+    """>= 17 states: one heavy strongly connected component whose position among the ids is fixed by
+    `layout` (which ids get removed), several other components, isolated states, one-way bridges"""
+    hi = max(thr, 1)
+    h = rng.randint(2, max(2, (2 * n) // 3))
+    ids = list(range(n))
+    if layout == "end":                 # removed states are the highest ids
+        heavy = ids[:h]
+    elif layout == "front":             # removed states are the lowest ids
+        heavy = ids[n - h:]
+    elif layout == "middle":            # removed states form a block strictly inside
+        a = rng.randint(1, h - 1)
+        heavy = ids[:a] + ids[n - (h - a):]
+    elif layout == "ends":              # removed at both ends, kept block inside
+        a = rng.randint(1, n - h - 1) if n - h >= 2 else 0
+        heavy = ids[a:a + h]
+    elif layout == "alt" and n >= 4:    # every other id
+        h = min(h, n // 2)
+        off = rng.randrange(2)
+        heavy = [2 * k + off for k in range(n // 2)][:max(2, h)]
+    else:                               # scattered
+        heavy = sorted(rng.sample(ids, h))
+    hs = set(heavy)
+    rest = [i for i in ids if i not in hs]
+    rng.shuffle(rest)
+    comps, k = [list(heavy)], 0
+    while k < len(rest):
+        s = rng.choice([1, 1, 2, 3, 4, 5, max(1, n // 6), max(1, n // 4)])
+        comps.append(rest[k:k + s])
+        k += s
+    C = [[0] * n for _ in range(n)]
+    for comp in comps:
+        if len(comp) == 1:
+            if rng.random() < 0.5:
+                C[comp[0]][comp[0]] = rng.choice([0, hi, hi + 3, 9])
+            continue
+        cyc = list(comp)
+        rng.shuffle(cyc)
+        for a, b in zip(cyc, cyc[1:] + cyc[:1]):
+            C[a][b] = hi + rng.randrange(3)
+        for _ in range(rng.randrange(1 + len(comp))):
+            a, b = rng.choice(comp), rng.choice(comp)
+            C[a][b] = hi + rng.randrange(4)
+    order = list(range(len(comps)))
+    rng.shuffle(order)
+    for x in range(len(order)):          # one-way bridges along a random order of the components
+        for y in range(x + 1, len(order)):
+            if rng.random() < min(0.45, 3.0 / len(order)):
+                a, b = rng.choice(comps[order[x]]), rng.choice(comps[order[y]])
+                C[a][b] = hi + rng.randrange(6)
+    if thr >= 2:
+        for _ in range(rng.randrange(2 * n)):
+            a, b = rng.randrange(n), rng.randrange(n)
+            if C[a][b] == 0:
+                C[a][b] = rng.randrange(1, thr)
+    w = [sum(sum(C[i]) for i in comp) for comp in comps]
+    top = max(w[1:]) if len(w) > 1 else 0
+    if tie and len(w) > 1:
+        need = top - w[0]
+    else:
+        need = top - w[0] + 1 + rng.randrange(3)
+    if need > 0:
+        cyc = heavy
+        a = rng.choice(heavy)
+        b = next(j for j in heavy if C[a][j] >= hi)
+        C[a][b] += need
+    return C
+
+
+def _deadend(rng, decides=True, pad=0):
+    """threshold 1.  Two competing components A, B, dead-end states (entered, never left) fed from A (and
+    sometimes B), optional source-only states (left, never entered), `pad` further light components.
+    With `decides` the counts INTO the dead ends are what makes A heavier than B: a caller that forgets
+    them (drops the dead-end columns before weighing) keeps B instead."""
+    sa, sb = rng.choice([1, 2, 2, 3, 4]), rng.choice([1, 2, 2, 3, 4])
+    nd, ns = rng.choice([1, 1, 2, 3]), rng.choice([0, 0, 1, 2])
+    extra = [rng.choice([1, 2, 3]) for _ in range(pad)]
+    n = sa + sb + nd + ns + sum(extra)
+    ids = list(range(n))
+    rng.shuffle(ids)
+    parts, k = [], 0
+    for sz in [sa, sb, nd, ns] + extra:
+        parts.append(ids[k:k + sz])
+        k += sz
+    A, B, D, S = parts[:4]
+    C = [[0] * n for _ in range(n)]
+
+    def cyc(comp, lo, span):
+        if len(comp) == 1:
+            C[comp[0]][comp[0]] = lo + rng.randrange(span)
+            return
+        order = list(comp)
+        rng.shuffle(order)
+        for a, b in zip(order, order[1:] + order[:1]):
+            C[a][b] = lo + rng.randrange(span)
+    cyc(A, 3, 3)
+    cyc(B, 3, 3)
+    for comp in parts[4:]:
+        cyc(comp, 1, 1)
+        if rng.random() < 0.4 and D:               # light components may feed the dead ends too
+            C[rng.choice(comp)][rng.choice(D)] += 1
+    if rng.random() < 0.3:                          # one-way bridge between the competitors
+        C[rng.choice(A)][rng.choice(B)] += 1
+    inner = lambda comp: sum(sum(C[i]) for i in comp)
+    dB = rng.choice([0, 0, 0, 1, 2])
+    for _ in range(dB):
+        C[rng.choice(B)][rng.choice(D)] += 1
+    if decides:
+        g = rng.choice([0, 1, 1, 2, 3])             # B's lead over A without the dead-end counts (0: a tie)
+        iA, iB = inner(A), inner(B) - dB
+        if iB < iA + g:
+            b = rng.choice(B)
+            C[b][next(j for j in B if C[b][j] > 0)] += iA + g - iB
+        else:
+            a = rng.choice(A)
+            C[a][next(j for j in A if C[a][j] > 0)] += iB - g - iA
+        dA = g + dB + rng.choice([1, 1, 2])          # ... and A's lead with them
+    else:
+        dA = rng.choice([1, 2, 3])
+    for d in D:                                      # every dead end is entered at least once
+        src = rng.choice(A) if decides else rng.choice(A + B)
+        C[src][d] += 1
+        dA -= 1 if src in A else 0
+    for _ in range(max(dA, 0)):
+        C[rng.choice(A)][rng.choice(D)] += 1
+    top = max(inner(A), inner(B))
+    for s_ in S:                                     # source-only states: weight = what leaves them
+        tgt = rng.choice(A + B + D)
+        C[s_][tgt] = rng.choice([1, 1, 2, top + 1 if rng.random() < 0.3 else 1])
+    return C
+
+
 def _mk(C, thr, ren, cont, extras=True, fit=None):
     return {"C": C, "thr": thr, "renumber": ren, "cont": cont, "extras": extras,
             "fit": fit if fit is not None else False}
@@ -134,6 +274,37 @@ def generate(rng, tier):
             cs = _mk(C, thr, rng.random() < 0.5, rng.choice(["coo_matrix", "coo_array"]), True, fit=False)
             cs["split"] = True
             cases.append(cs)
+    conts = ["dense"] + SPARSE
+    # layout stream (small): which ids are removed -- the highest ("end"), the lowest ("front"), a block inside
+    # ("middle"), both ends, every other id, scattered -- x every container; the in-place variant is the main run,
+    # the renumbered one its sibling
+    for rep in range(1 if tier == "quick" else 6):
+        for cont in conts:
+            for layout in LAYOUTS:
+                thr = rng.choice([0, 1, 1, 2, 3])
+                C = _many(rng, rng.choice([3, 4, 5, 6, 7, 8, 9]), thr, layout, tie=rng.random() < 0.1)
+                cases.append(_mk(C, thr, False, cont, True, fit=(thr == 1 and rng.random() < 0.5)))
+    # dead-end stream (threshold 1, MSM.fit): states that are entered but never left; the counts into them belong to
+    # the component they come from and decide which component is the heaviest
+    for k in range(70 if tier == "quick" else 700):
+        C = _deadend(rng, decides=rng.random() < 0.75, pad=rng.choice([0, 0, 1, 2]))
+        cases.append(_mk(C, 1, rng.random() < 0.5, conts[k % len(conts)], True, fit=True))
+    # many-states stream: 17..200 states (sorting / searching routines switch algorithm above 16 elements),
+    # every container x every layout; compared inside Coq up to COQ_CAP states, by the exact oracle beyond
+    heavy = []
+    for rep in range(1 if tier == "quick" else 4):
+        for ci, cont in enumerate(conts):
+            for li, layout in enumerate(LAYOUTS):
+                thr = rng.choice([0, 1, 1, 1, 2, 3])
+                if (ci + li + rep) % 2 == 0:
+                    n = rng.choice([17, 17, 18, 19, 20, 21, 22, 24, 25, 28, 31, 32, 33, 36, COQ_CAP])
+                else:
+                    n = rng.choice([41, 48, 50, 63, 64, 65, 75, 90, 100, 127, 128, 129, 150, 200])
+                C = _many(rng, n, thr, layout, tie=rng.random() < 0.1)
+                heavy.append(_mk(C, thr, rng.random() < 0.5, cont, True, fit=(thr == 1 and rng.random() < 0.6)))
+    for k in range(6 if tier == "quick" else 40):        # dead ends among many states
+        C = _deadend(rng, decides=True, pad=rng.choice([5, 6, 8, 12, 20]))
+        heavy.append(_mk(C, 1, rng.random() < 0.5, conts[k % len(conts)], True, fit=True))
     # TrimMapping on its own: injective (original, mapped) pairs in arbitrary order, and the empty list
     for k in range(40 if tier == "quick" else 400):
         m = rng.randrange(0, 7) if k else 0
@@ -164,7 +335,14 @@ def generate(rng, tier):
             cases.append(_mk(A, 1, sum(bits) % 2 == 0, "dense", False))
             W = [[A[i][j] * (1 + (2 * i + j) % 3) for j in range(n)] for i in range(n)]
             cases.append(_mk(W, 2, sum(bits) % 2 == 1, "dense", False))
-    return cases
+    # the many-states cases are spread evenly over the run so that the Coq case files stay balanced
+    step = max(1, len(cases) // (len(heavy) + 1))
+    out = []
+    for i, c in enumerate(cases):
+        out.append(c)
+        if heavy and (i + 1) % step == 0:
+            out.append(heavy.pop())
+    return out + heavy
 
 
 # ----------------------------------------------------------------------------- implementation
@@ -265,15 +443,15 @@ def _edges(C, thr):
 
 
 def _reach(E):
+    """reflexive-transitive closure (Warshall; rows kept as bit sets so that 200 states stay cheap)"""
     n = len(E)
-    R = [[i == j or E[i][j] for j in range(n)] for i in range(n)]
+    rows = [sum(1 << j for j in range(n) if (i == j or E[i][j])) for i in range(n)]
     for k in range(n):
+        rk, bit = rows[k], 1 << k
         for i in range(n):
-            if R[i][k]:
-                for j in range(n):
-                    if R[k][j]:
-                        R[i][j] = True
-    return R
+            if rows[i] & bit:
+                rows[i] |= rk
+    return [[bool((rows[i] >> j) & 1) for j in range(n)] for i in range(n)]
 
 
 def _sccs(C, thr):
@@ -379,6 +557,9 @@ def oracle(c, r):
         if ref is not None and "err" not in ref:
             if "err" in f or any(f[k] != ref[k] for k in ("keep", "counts", "to_original", "to_mapped")):
                 out.append(("msm-fit", "MSM(trim=True).fit reports %s, trim_disconnected %s" % (f, ref)))
+        # ... and the fitted model meets every clause on its own (threshold 1, renumbered, COO counts)
+        if _wellformed(C) and "err" not in f:
+            out += _check_one(C, 1, True, "coo_matrix", f, "fit-")
         g = r["fit_notrim"]
         n = len(C)
         if "err" in g or g["to_original"] != [[k, k] for k in range(n)] or g["counts"] != C:
@@ -444,6 +625,8 @@ def coq_check(c, r):
             _cpairs(c["pairs"]), res, _cpairs(c["pairs"]), res)
     if any(isinstance(v, dict) and str(v.get("err", "")).startswith("Unexpected") for v in r.values()) or "main" not in r:
         return "false"
+    if len(c["C"]) > COQ_CAP:
+        return None        # beyond the size affordable inside Coq: judged by the exact oracle only
     C, thr, ren, cont = _cmat(c["C"]), cz(c["thr"]), c["renumber"], _ccont(c["cont"])
     inp = _cinp(c["cont"], c["C"], c.get("split"))
     terms = ["impl_agrees %s %s %s %s %s" % (thr, C, cb(ren), cont, _cres(r["main"])),
@@ -524,6 +707,47 @@ def tags(c, r):
             t.append("weight-decided-by-non-edge-counts")
     if any(0 < C[i][j] < thr for i in range(n) for j in range(n)):
         t.append("sub-threshold-count")
+    # which ids are removed (as the implementation reports them)
+    if "err" not in r["main"]:
+        ks = set(r["main"]["keep"])
+        removed = [i for i in range(n) if i not in ks]
+        both = (not c["renumber"]) or "other" in r          # the in-place variant was run
+        if removed and ks:
+            if n - 1 in removed:
+                t.append("removed-at-end")
+                if both and c["cont"] != "dense":
+                    t.append("in-place-end-removed:" + c["cont"])
+            if 0 in removed:
+                t.append("removed-at-front")
+            if any(min(ks) < i < max(ks) for i in removed):
+                t.append("removed-in-middle")
+    if n > 16:
+        t.append("many-states")
+        t.append("many-states-in-coq" if n <= COQ_CAP else "many-states-oracle-only")
+        t.append("many-states-dense" if c["cont"] == "dense" else "many-states-sparse")
+        if "fit" in r:
+            t.append("many-states-msm-fit")
+        if len(comps) >= 3:
+            t.append("many-states-several-components")
+    # dead ends (entered, never left) and source-only states (left, never entered)
+    sinks = [j for j in range(n) if not any(C[j]) and any(C[i][j] for i in range(n))]
+    srcs = [i for i in range(n) if any(C[i]) and not any(C[k][i] for k in range(n))]
+    if sinks:
+        t.append("dead-end-state")
+        if thr == 1:
+            live = [i for i in range(n) if i not in sinks]
+            C2 = [[C[i][j] for j in live] for i in live]
+            comps2 = [[live[i] for i in comp] for comp in _sccs(C2, thr)]
+            w2 = [sum(C[i][j] for i in comp for j in live) for comp in comps2]
+            best2 = sorted(comps2[k] for k in range(len(comps2)) if w2[k] == max(w2))
+            if best2 != sorted(comps[k] for k in best):
+                t.append("dead-end-decides")            # forgetting the counts into dead ends changes the answer
+                if "fit" in r:
+                    t.append("dead-end-decides-msm-fit")
+    if srcs:
+        t.append("source-only-state")
+        if len(best) == 1 and len(comps[best[0]]) == 1 and comps[best[0]][0] in srcs:
+            t.append("heaviest-is-source-only-state")
     if len(comps) == 1:
         t.append("already-connected")
     if len(comps) == n and n > 1:
@@ -533,7 +757,12 @@ def tags(c, r):
 
 ESSENTIAL_TAGS = ["coo-split-entries", "renumber", "in-place", "dense", "sparse", "msm-fit", "tie-for-heaviest", "unique-heaviest",
                   "one-way-bridge", "isolated-state", "heaviest-not-largest", "heaviest-not-first",
-                  "kept-ids-interleaved", "sub-threshold-count", "err-empty", "err-non-square", "already-connected", "trim-mapping-alone"]
+                  "kept-ids-interleaved", "sub-threshold-count", "err-empty", "err-non-square", "already-connected", "trim-mapping-alone",
+                  "removed-at-end", "removed-at-front", "removed-in-middle",
+                  "many-states", "many-states-in-coq", "many-states-oracle-only", "many-states-dense", "many-states-sparse",
+                  "many-states-msm-fit", "many-states-several-components",
+                  "dead-end-state", "dead-end-decides-msm-fit", "source-only-state", "heaviest-is-source-only-state"] + \
+                 ["in-place-end-removed:" + k for k in SPARSE]
 
 
 def search(rng, tier):
@@ -547,5 +776,22 @@ def search(rng, tier):
             found.append((key, msg, c, r))
         if found:
             break
+    if not found:
+        conts = ["dense"] + SPARSE
+        for k in range(240):
+            if k % 3 == 0:
+                C, thr = _deadend(rng, decides=True, pad=rng.choice([0, 1, 2])), 1
+            elif k % 3 == 1:
+                thr = rng.choice([0, 1, 1, 2])
+                C = _many(rng, rng.choice([17, 18, 20, 24, 33, 50, 75, 130]), thr, LAYOUTS[(k // 3) % len(LAYOUTS)])
+            else:
+                thr = rng.choice([0, 1, 1, 2])
+                C = _many(rng, rng.choice([3, 4, 5, 6, 8]), thr, LAYOUTS[(k // 3) % len(LAYOUTS)])
+            c = _mk(C, thr, False, conts[k % len(conts)], True, fit=(thr == 1))
+            r = run_impl(c)
+            for key, msg in oracle(c, r):
+                found.append((key, msg, c, r))
+            if found:
+                break
     found.sort(key=lambda f: len(str(f[2])))
     return found
